@@ -1,7 +1,142 @@
-(** C15 — Directory and archive indexers capture exactly the source files. (first version: robustness only) *)
-From ZV Require Import Lib.Base Model.DirWalk.
+(** C15 — Directory and archive indexers capture exactly the source files.
+    Model: Model/DirWalk.v (filepath.Walk + fileAggregator.add + indexArg + newIgnoreMatcher; archive member
+    filter + stripComponents + archive.Index with its lazily created builder). Proofs: Proofs/DirWalk.v.
+    Trusted boundary: tar/zip/gzip decoding, the glob matcher (the verdict function [matcher] is universally
+    quantified), the OS, index.Builder's round trip ([builder_view] models Builder.Add's skip rewriting). *)
+From ZV Require Import Lib.Base Model.DirWalk Proofs.DirWalk.
 
-Theorem C15_archive_never_panics : forall strip size_max ms,
+(** Directory indexing, every tree, every ignore verdict function, every ignored-name set, every SizeMax:
+    the documents are exactly the images of the pairs (path, bytes) such that the path leads through real
+    directories only (a symlink is a leaf: [reach] only descends through NDir) to a regular file with these
+    bytes or to a symlink with this TARGET, the path is not matched by the ignore file, no directory strictly
+    above it is named in ignoreDirs or matched, and the root's own name is not ignored.  The ignore file is
+    honoured only if .sourcegraph is a real directory and .sourcegraph/ignore a regular file. *)
+Theorem C15_dir_docs_spec : forall matcher igd size_max root_base ch d,
+  let ig := match ignore_file_of ch with Some c => matcher c | None => fun _ => false end in
+  In d (index_arg matcher igd size_max root_base ch) <->
+  exists p c, d = (join_path p, builder_view size_max c) /\
+              mem_name root_base igd = false /\ dir_doc_spec ig igd [] ch p c.
+Proof. exact index_arg_spec. Qed.
+Print Assumptions C15_dir_docs_spec.
+
+(** ... and exactly ONE document per such path: on a tree as a file system presents it (sibling names
+    distinct, non-empty, without '/') no two documents share a name. *)
+Theorem C15_dir_one_doc_per_path : forall matcher igd size_max root_base ch,
+  wf_children ch -> NoDup (map fst (index_arg matcher igd size_max root_base ch)).
+Proof. exact index_arg_names_nodup. Qed.
+Print Assumptions C15_dir_one_doc_per_path.
+
+(** A symlink is indexed with its target string, whatever the target denotes: the model of a link node
+    carries nothing else, and the correspondence runs the real indexArg on links to files, directories,
+    paths outside the root and dangling paths against it. Stated for a link directly below the root. *)
+Theorem C15_symlink_content_is_target : forall matcher igd size_max root_base ch nm t,
+  let ig := match ignore_file_of ch with Some c => matcher c | None => fun _ => false end in
+  In (nm, NSymlink t) ch -> mem_name root_base igd = false -> ig [nm] = false ->
+  In (nm, builder_view size_max t) (index_arg matcher igd size_max root_base ch).
+Proof.
+  intros matcher igd size_max root_base ch nm t ig Hin Hroot Hig.
+  apply index_arg_spec. exists [nm], t. split; [reflexivity|]. split; [exact Hroot|].
+  exists [nm], (NSymlink t). split; [reflexivity|]. split; [apply reach_here; exact Hin|].
+  split; [reflexivity|]. split; [exact Hig|].
+  intros q r Heq Hq Hr. destruct q as [|a q]; [contradiction|].
+  destruct q; destruct r; try contradiction; discriminate.
+Qed.
+Print Assumptions C15_symlink_content_is_target.
+
+(** stripComponents removes exactly [count] leading '/'-terminated components ... *)
+Theorem C15_strip_components_complete : forall comps r,
+  Forall slash_free comps -> strip_components (join_prefix comps ++ r) (length comps) = r.
+Proof. exact strip_components_complete. Qed.
+Print Assumptions C15_strip_components_complete.
+
+(** ... and returns a non-empty name only in that way (fewer components, or nothing left: ""). *)
+Theorem C15_strip_components_sound : forall n p r,
+  strip_components p n = r -> r <> [] ->
+  exists comps, length comps = n /\ Forall slash_free comps /\ p = join_prefix comps ++ r.
+Proof. exact strip_components_sound. Qed.
+Print Assumptions C15_strip_components_sound.
+
+(** Archive indexing (the repaired code), every member list and strip count: success, and the documents
+    are, in order and with multiplicity, the regular members whose stripped name is non-empty. *)
+Theorem C15_archive_docs_spec : forall strip size_max ms,
+  archive_index strip size_max ms = Ok (flat_map (member_docs strip size_max) ms).
+Proof. exact archive_index_docs. Qed.
+Print Assumptions C15_archive_docs_spec.
+
+Theorem C15_archive_docs_in : forall strip size_max ms docs d,
+  archive_index strip size_max ms = Ok docs ->
+  (In d docs <-> exists m, In m ms /\ is_reg m = true /\ strip_components (m_name m) strip <> [] /\
+                           d = (strip_components (m_name m) strip, builder_view size_max (m_data m))).
+Proof. exact archive_index_in. Qed.
+Print Assumptions C15_archive_docs_in.
+
+(** Indexing never crashes: the only checked operation of the two indexers is Finish on the lazily created
+    builder.  (The directory model has no partial operation at all; I/O errors are outside the model.) *)
+Theorem C15_never_panics : forall strip size_max ms,
   is_panic (archive_index strip size_max ms) = false.
-Proof. intros. unfold archive_index. destruct (archive_loop _ _ _ _); reflexivity. Qed.
-Print Assumptions C15_archive_never_panics.
+Proof. exact archive_index_never_panics. Qed.
+Print Assumptions C15_never_panics.
+
+(** The code before the repair (d8ff71c in /repo) panicked exactly on the archives without a regular member. *)
+Theorem C15_never_panics_refuted_before_fix : forall strip size_max ms,
+  is_panic (archive_index_unguarded strip size_max ms) = true <-> forallb (fun m => negb (is_reg m)) ms = true.
+Proof. exact archive_index_unguarded_panics_iff. Qed.
+Print Assumptions C15_never_panics_refuted_before_fix.
+
+(** ---------- non-vacuity *)
+
+(* root/ { .git/{config}, .sourcegraph/{ignore}, a.go, link -> ../outside, sub/{b.go, skip.tmp, deep/{c}} } with
+   the matcher verdict "skip.tmp matched", ignoreDirs = [.git] *)
+Example C15_dir_nonvacuous :
+  let git := [46;103;105;116]%N in
+  let tree :=
+    [ (git, NDir [([99]%N, NFile [120;120;120]%N)]);
+      (name_sourcegraph, NDir [(name_ignore, NFile [42;46;116;109;112]%N)]);
+      ([97;46;103;111]%N, NFile [109;97;105;110]%N);
+      ([108]%N, NSymlink [46;46;47;111;117;116]%N);
+      ([115]%N, NDir [([98]%N, NFile [98;98;98]%N); ([116;109;112]%N, NFile [116;116;116]%N);
+                      ([100]%N, NDir [([99]%N, NFile [])])]) ] in
+  let matcher := fun (_ : bytes) (p : list bytes) => bytes_eqb (last p []) [116;109;112]%N in
+  wf_children tree /\
+  index_arg matcher [git] 100 [114]%N tree =
+    [ ([46;115;111;117;114;99;101;103;114;97;112;104;47;105;103;110;111;114;101]%N, [42;46;116;109;112]%N);
+      ([97;46;103;111]%N, [109;97;105;110]%N);
+      ([108]%N, [46;46;47;111;117;116]%N);
+      ([115;47;98]%N, [98;98;98]%N);
+      ([115;47;100;47;99]%N, []) ].
+Proof.
+  split; [|vm_compute; reflexivity].
+  assert (Hok : forall x : bytes, x <> [] -> existsb (N.eqb 47) x = false -> name_ok x).
+  { intros x Hne Hs. split; [exact Hne|]. intro Hin. assert (existsb (N.eqb 47) x = true) as E.
+    { apply existsb_exists. exists 47%N. split; [exact Hin|reflexivity]. } rewrite E in Hs. discriminate. }
+  assert (Hnd : forall l : list bytes, (fix nd (l : list bytes) := match l with [] => true | x :: r => negb (mem_name x r) && nd r end) l = true -> NoDup l).
+  { induction l as [|x l IH]; intro H; [constructor|]. apply andb_true_iff in H. destruct H as [H1 H2]. constructor; [|apply IH; exact H2].
+    intro Hin. assert (mem_name x l = true) as E. { apply existsb_exists. exists x. split; [exact Hin|apply bytes_eqb_refl]. }
+    rewrite E in H1. discriminate. }
+  constructor.
+  - apply Hnd. vm_compute. reflexivity.
+  - repeat constructor; apply Hok; try discriminate; reflexivity.
+  - intros nm sub Hin. cbn in Hin.
+    repeat (destruct Hin as [Hin|Hin]; [inversion Hin; subst; clear Hin|]); try contradiction.
+    + constructor; [apply Hnd; vm_compute; reflexivity|repeat constructor; apply Hok; try discriminate; reflexivity|].
+      intros nm' sub' Hin'. cbn in Hin'. destruct Hin' as [E|[]]. discriminate.
+    + constructor; [apply Hnd; vm_compute; reflexivity|repeat constructor; apply Hok; try discriminate; reflexivity|].
+      intros nm' sub' Hin'. cbn in Hin'. destruct Hin' as [E|[]]. discriminate.
+    + constructor; [apply Hnd; vm_compute; reflexivity|repeat constructor; apply Hok; try discriminate; reflexivity|].
+      intros nm' sub' Hin'. cbn in Hin'.
+      repeat (destruct Hin' as [E|Hin']; [try discriminate; inversion E; subst; clear E|]); try contradiction.
+      constructor; [apply Hnd; vm_compute; reflexivity|repeat constructor; apply Hok; try discriminate; reflexivity|].
+      intros nm2 sub2 Hin2. cbn in Hin2. destruct Hin2 as [E|[]]. discriminate.
+Qed.
+
+(* strip 1 on "top/src/a.go", "top/" (dir), "README" (too few components), "top/x" (2-byte content), and no member at all *)
+Example C15_archive_nonvacuous :
+  let ms := [ {| m_kind := MReg; m_name := [116;111;112;47;115;114;99;47;97;46;103;111]%N; m_data := [109;97;105;110]%N |};
+              {| m_kind := MDir; m_name := [116;111;112;47]%N; m_data := [] |};
+              {| m_kind := MReg; m_name := [82;69;65;68;77;69]%N; m_data := [104;105;33]%N |};
+              {| m_kind := MReg; m_name := [116;111;112;47;120]%N; m_data := [104;105]%N |} ] in
+  archive_index 1 100 ms = Ok [ ([115;114;99;47;97;46;103;111]%N, [109;97;105;110]%N); ([120]%N, marker_too_small) ]
+  /\ archive_index 1 100 [] = Ok []
+  /\ archive_index_unguarded 1 100 [ {| m_kind := MDir; m_name := [116;111;112;47]%N; m_data := [] |} ] = Panic panic_nil_builder
+  /\ strip_components [97;47;47;98]%N 2 = [98]%N.
+Proof. vm_compute. repeat split; reflexivity. Qed.
